@@ -42,10 +42,23 @@ func c07(c *core.Ctx, r *core.Report) {
 		}
 		exhaustive(c, r, "R07.dispatch", d, exc, "a value of this kind reaching the switch crashes the analysis")
 	}
-	for _, anchor := range []string{"analysis/lang.InstrSwitch", "internal/pointer.analysis.genInstr", "analysis/dataflow.addInEdge",
-		"analysis/backtrace.Visitor.visit", "analysis/escape.functionAnalysisState.transferFunction"} {
-		if !seenAnchor[anchor] {
-			r.Fail("infra.anchor-unresolved", "R07.dispatch|"+anchor, "", "expected panicking dispatcher not found (renamed, or default arm no longer panics: update the anchor table)")
+	// non-vacuity: the dispatchers confirmed by reading must still be discovered; they are identified by package and
+	// dispatched interface (not by function name), so that moving an arm or a nested switch into a helper of the
+	// same package does not look like a disappearance
+	seenPkgIface := map[string]bool{}
+	for _, d := range ds {
+		pkg := d.Func
+		if i := strings.LastIndex(pkg, "/"); i >= 0 {
+			if j := strings.Index(pkg[i:], "."); j >= 0 {
+				pkg = pkg[:i+j]
+			}
+		}
+		seenPkgIface[pkg+"|"+core.ShortType(d.Iface)] = true
+	}
+	for _, anchor := range []string{"analysis/lang|ssa.Instruction", "internal/pointer|ssa.Instruction", "analysis/dataflow|dataflow.GraphNode",
+		"analysis/backtrace|dataflow.GraphNode", "analysis/escape|ssa.Value"} {
+		if !seenPkgIface[anchor] {
+			r.Fail("infra.anchor-unresolved", "R07.dispatch|"+anchor, "", "no panicking dispatcher over this interface is discovered in this package any more (the confirmed ones were InstrSwitch, genInstr, addInEdge, backtrace visit, the escape go-callee switch)")
 		}
 	}
 
